@@ -19,6 +19,16 @@ def handle (op : String) (args : List String) : Option (String × String) :=
     let a ← parseLimbs a; let b ← parseLimbs b
     let r := "ok " ++ toString (Cost.mul P a b)
     pure (r, r)
+  -- the same product through another call shape (aliased references, owned operands, `*=`, `pow(2)`, BigInt):
+  -- the cost depends on the digit vectors only
+  | "workf", [_, a, b] => do
+    let a ← parseLimbs a; let b ← parseLimbs b
+    let r := "ok " ++ toString (Cost.mul P a b)
+    pure (r, r)
+  | "worksq", [_, n, p] => do
+    let n ← parseNat n; let p ← parseNat p
+    let r := "ok " ++ toString (Cost.mul P (Cost.dense p 0 n) (Cost.dense p 0 n))
+    pure (r, r)
   -- nominal recurrence (driver only; used by the size-table step of the check)
   | "wnom", [n, m] => do
     let n ← parseNat n; let m ← parseNat m
